@@ -155,6 +155,26 @@ CHECKS = {
               "Coverage as a geometric run-time fact follows with C02 and is NOT observed."),
         note=TRUST + "; C02 tiling lemma; positive parameters",
         ref="DESIGN.md section 4-C11"),
+    "C12": dict(
+        engine="structural rules + E7 idioms",
+        technique="structural pattern rules over SequOOL's schedule code (normalised statements) + arg-max fold recognition",
+        text=("Static necessary conditions (thin row): H_n and h_max = floor(n/H_n) formulas, budget = floor(h_max/depth) at every depth "
+              "advance; all opening code under the depth cap, exhausted branch hands out the root centre and touches nothing; the opened "
+              "cell is the arg-max-first-reward unopened cell of the current depth; children are handed out one per pull in index "
+              "order, each stored as the cell to credit and as a searched point; the last child closes the opening; searched points "
+              "change nowhere else. The order of openings over a run is NOT decided."),
+        note=TRUST + "; statement-set patterns: a behaviour-preserving rewrite of the hand-out block may need the pattern extended",
+        ref="DESIGN.md section 4-C12"),
+    "C13": dict(
+        engine="structural rules + E3",
+        technique="structural pattern rules + sympy equivalence of the rank key / weights + lock-step chain analysis",
+        text=("Static necessary conditions (thin row): ranks are position+1 in a descending stable sort by the published lower "
+              "confidence value (a permutation by construction); weights 1/(h r C) over depths 1..floor(log2 n) with the matching "
+              "normaliser; the cell is drawn by np.random.choice with those weights; the credited chain starts at the drawn cell and "
+              "descends child by child to the cap; the point is a uniform sample of the last cell. The probabilities as numbers and "
+              "non-binary partitions are NOT decided."),
+        note=TRUST + "; binary-child partitions; statement-set patterns",
+        ref="DESIGN.md section 4-C13"),
 }
 
 NOT_YET = "checker under construction in this round (see DESIGN.md section 0 for the clause it will decide)"
